@@ -243,8 +243,13 @@ def derived_check(tf, qs, univ, limit=60, step=7):
             rc, rc2 = M.real_query(tf, c, {}), M.real_query(tf, c2, {})
         except Exception:  # noqa
             continue
-        holder_and, holder_or, holder_not = rq & rc2, rc2 | rq, ~rq
-        before = (beh(rq), beh(holder_and), beh(holder_or), beh(holder_not))
+        try:
+            holder_and, holder_or, holder_not = rq & rc2, rc2 | rq, ~rq
+            before = (beh(rq), beh(holder_and), beh(holder_or), beh(holder_not))
+        except Exception as ex:  # noqa  (what was built is no query object: the evaluation part of the check reports that)
+            if len(bad) < 3:
+                bad.append({"query": q, "derived_with": c2, "why": f"combining a built query with & / | / ~ raised {type(ex).__name__}: {ex}"})
+            continue
         try:
             ident_before = (rq == fresh, hash(rq) if rq.is_hashable() else None)
             d = rq
